@@ -205,6 +205,12 @@ def Replica.view (r : Replica) : View :=
 def Replica.offlineView (r : Replica) : PinMap := ((newest r.snaps).map (·.content)).getD []
 def Replica.offlineIdx (r : Replica) : Nat := ((newest r.snaps).map (·.idx)).getD 0
 
+/-- what is observed of a peer (state `r` after the event) : what it serves and how many entries its
+    Raft has applied; for the offline read of a stopped peer, the newest snapshot and its index -/
+def observe (r : Replica) : Ev → View × Nat
+  | .offline => if r.up then (r.view, r.applied) else (.pins r.offlineView, r.offlineIdx)
+  | _ => (r.view, r.applied)
+
 /-- schedule restriction under which snapshots are point-in-time: nothing is applied or installed
     on a replica between its `Snapshot()` and the `Persist()` of that snapshot -/
 def atomicStep (s : Sys) (i : Nat) : Ev → Bool
